@@ -176,6 +176,12 @@ void on_death()
     once = true;
     if (current_scope()) {
         json c = current_scope()->dump();
+        if (death_refine()) {
+            json r = death_refine()();
+            for (auto it = r.begin(); it != r.end(); ++it) {
+                c[it.key()] = it.value();
+            }
+        }
         c["died"] = true;
         write_replay(c, "process died while executing this case (assertion / sanitizer report; see log)");
     }
@@ -203,6 +209,12 @@ void install_death_hooks()
     signal(SIGABRT, on_abort);
 }
 }   // namespace
+
+std::function<json()> & death_refine()
+{
+    static std::function<json()> f;
+    return f;
+}
 
 void fail_exit(const json & c, const std::string & msg)
 {
